@@ -543,3 +543,115 @@ Theorem C03_node_count_canonical_size_zbdd_examples :
   canon_size_zbdd 3 (fun c => andb (andb (Nat.eqb (c 0) 1) (Nat.eqb (c 1) 1)) (Nat.eqb (c 2) 1)) = 1%N.
 Proof. exact ex_canon_size_zbdd. Qed.
 Print Assumptions C03_node_count_canonical_size_zbdd_examples.
+
+(** ** ALL histories, complement-edge kind (HISTc): the BCDD manager state machine of
+    Mgr/HistoryC.v - the same 15 kinds of calls as above with the BCDD models (DD/ApplyBcdd.v,
+    DD/QuantBcdd.v, Mgr/LevelSwapC.v) - from the empty manager, for every edge order [lt] and
+    every cache that only serves what was added ([lossyC]).  Slots hold EDGES (reference +
+    complement tag). *)
+From OxiVerif Require Import DD.ApplyBcdd DD.ApplyBcddProofs DD.ApplyBcddEval DD.QuantBcddLemmas
+  Mgr.HistoryC Mgr.HistoryCProofs Mgr.HistoryCThms Mgr.HistoryCExamples.
+
+(* what "reachable" means: the state after a history of well-formed requests from the empty manager *)
+Theorem C03_histc_reach_unfold :
+  forall (lt : edge -> edge -> bool) (C : Type) (cget : C -> N -> list edge -> option edge)
+         (cadd : C -> N -> list edge -> edge -> C) (cempty : C) (n : nat) (st : hstate_c C),
+  hreach_c lt C cget cadd cempty n st <->
+  exists ops, hops_pre_c lt C cget cadd cempty (hinit_c C cempty n) ops /\
+              hrun_c lt C cget cadd cempty (hinit_c C cempty n) ops = Some st.
+Proof. exact (fun lt C cget cadd cempty n st => iff_refl _). Qed.
+Print Assumptions C03_histc_reach_unfold.
+
+(* the invariant that holds whenever no operation is in progress *)
+Theorem C03_histc_inv_unfold :
+  forall (C : Type) (cget : C -> N -> list edge -> option edge) (st : hstate_c C),
+  HInvC C cget st <->
+  (BcOK (hc_s C st) /\
+   QCacheOKC cget (creg_fn (hc_reg C st)) (hc_s C st) (hc_c C st) /\
+   (forall id pairs, In (id, pairs) (hc_reg C st) ->
+      NoDup (map fst pairs) /\
+      forall v e, In (v, e) pairs -> v < nlevels (hc_s C st) /\ ref_ok (hc_s C st) (eref e)) /\
+   (forall id pairs, In (id, pairs) (hc_reg C st) -> N.lt id (hc_next C st))).
+Proof. exact hinvc_unfold. Qed.
+Print Assumptions C03_histc_inv_unfold.
+
+Theorem C03_histc_init_inv :
+  forall (C : Type) (cget : C -> N -> list edge -> option edge) (cempty : C),
+  (forall k a, cget cempty k a = None) -> forall n, HInvC C cget (hinit_c C cempty n).
+Proof. exact hinit_c_inv. Qed.
+Print Assumptions C03_histc_init_inv.
+
+(* one call of any kind: completes, re-establishes the invariant, frame, result *)
+Theorem C03_histc_step :
+  forall (lt : edge -> edge -> bool) (C : Type) (cget : C -> N -> list edge -> option edge)
+         (cadd : C -> N -> list edge -> edge -> C), lossyC cget cadd ->
+  forall cempty : C, (forall k a, cget cempty k a = None) ->
+  forall (st : hstate_c C) (o : hop), HInvC C cget st -> hop_pre_c C st o ->
+  exists st', hstep_c lt C cget cadd cempty st o = Some st' /\
+              HInvC C cget st' /\ hframe_c C st o st' /\ hpost_c C st o st'.
+Proof. exact hstep_c_ok. Qed.
+Print Assumptions C03_histc_step.
+
+(* whole histories *)
+Theorem C03_histc_run_ok :
+  forall (lt : edge -> edge -> bool) (C : Type) (cget : C -> N -> list edge -> option edge)
+         (cadd : C -> N -> list edge -> edge -> C), lossyC cget cadd ->
+  forall cempty : C, (forall k a, cget cempty k a = None) ->
+  forall ops st, HInvC C cget st -> hops_pre_c lt C cget cadd cempty st ops ->
+  exists st', hrun_c lt C cget cadd cempty st ops = Some st' /\ HInvC C cget st'.
+Proof. exact hrun_c_ok. Qed.
+Print Assumptions C03_histc_run_ok.
+
+(* from any reachable state no well-formed request gets stuck, and the state reached is reachable *)
+Theorem C03_histc_never_stuck :
+  forall (lt : edge -> edge -> bool) (C : Type) (cget : C -> N -> list edge -> option edge)
+         (cadd : C -> N -> list edge -> edge -> C), lossyC cget cadd ->
+  forall cempty : C, (forall k a, cget cempty k a = None) ->
+  forall n st o, hreach_c lt C cget cadd cempty n st -> hop_pre_c C st o ->
+  exists st', hstep_c lt C cget cadd cempty st o = Some st' /\
+              hreach_c lt C cget cadd cempty n st' /\ hframe_c C st o st' /\ hpost_c C st o st'.
+Proof. exact histc_progress. Qed.
+Print Assumptions C03_histc_never_stuck.
+
+(* the property: after ANY history the BCDD table passes the structural checkers run on real snapshots *)
+Theorem C03_histc_wf :
+  forall (lt : edge -> edge -> bool) (C : Type) (cget : C -> N -> list edge -> option edge)
+         (cadd : C -> N -> list edge -> edge -> C), lossyC cget cadd ->
+  forall cempty : C, (forall k a, cget cempty k a = None) ->
+  forall n st, hreach_c lt C cget cadd cempty n st ->
+  wf_b (hc_s C st) = true /\ bcok_b (hc_s C st) = true.
+Proof. exact histc_wf. Qed.
+Print Assumptions C03_histc_wf.
+
+(* well-formedness of a request is decidable: the executable checker decides it *)
+Theorem C03_histc_pre_checker :
+  forall (C : Type) (st : hstate_c C) (o : hop), hop_pre_cb C st o = true <-> hop_pre_c C st o.
+Proof. exact hop_pre_cb_spec. Qed.
+Print Assumptions C03_histc_pre_checker.
+
+Theorem C03_histc_run_checked :
+  forall (lt : edge -> edge -> bool) (C : Type) (cget : C -> N -> list edge -> option edge)
+         (cadd : C -> N -> list edge -> edge -> C), lossyC cget cadd ->
+  forall cempty : C, (forall k a, cget cempty k a = None) ->
+  forall n ops, hops_pre_cb lt C cget cadd cempty (hinit_c C cempty n) ops = true ->
+  exists st, hrun_c lt C cget cadd cempty (hinit_c C cempty n) ops = Some st /\
+             hreach_c lt C cget cadd cempty n st.
+Proof. exact hrun_c_checked. Qed.
+Print Assumptions C03_histc_run_checked.
+
+(* non-vacuity: a history of 26 calls through all 15 kinds, accepted by the checker, computed;
+   complemented edges occur in slots, in stored nodes and in the substitution object *)
+Theorem C03_histc_example_cover :
+  forallb (fun t => existsb (fun o => Nat.eqb (hop_tag o) t) exc_ops) (seq 0 15) = true /\ length exc_ops = 26.
+Proof. exact exc_ops_cover. Qed.
+Print Assumptions C03_histc_example_cover.
+
+Theorem C03_histc_example_run :
+  hops_pre_cb ltA eacache eac_get eac_add nil (hinit_c eacache nil 3) exc_ops = true /\
+  hrun_c ltA eacache eac_get eac_add nil (hinit_c eacache nil 3) exc_ops = Some exc_stA /\
+  PositiveMap.cardinal (s_nodes (hc_s eacache exc_stA)) = 16 /\
+  s_l2v (hc_s eacache exc_stA) = (2 :: 0 :: 1 :: 3 :: nil) /\
+  wf_b (hc_s eacache exc_stA) = true /\ bcok_b (hc_s eacache exc_stA) = true.
+Proof. exact (conj exc_preA (conj exc_runA (conj (proj1 exc_stA_shape)
+         (conj (proj1 (proj2 exc_stA_shape)) exc_wfA)))). Qed.
+Print Assumptions C03_histc_example_run.
